@@ -14,6 +14,8 @@ ops (one history = everything since the last `reset`):
   dump
   reset-brd <hex.BRD> | newboard <name13hex> <image256hex> | brd-dump              (ptt.NewBoard → addBoardRecord)
   reset-bottom <hex|absent> | coldread <total|general> | loadbottom | bottom-dump  (.DIR.bottom behind the board cache)
+  reset-dir <hex|absent> | stale-file <name28> | recommend <name28> <1|2|3> <mtime> | delete-article <aidhex>
+    | editpost <name28> | crosspost <name28> | dir-dump                            (request layer on one board's .DIR)
 Mutating ops answer `<result> <state>` with state = `absent` or `<length>:<fnv1a-64 of the bytes>`.
 -/
 
@@ -22,6 +24,7 @@ structure St where
   fs : FS
   brd : FS := FS.absent                     -- BBSHOME/.BRD (callers layer)
   bottom : Bottom := ⟨FS.absent, 0, true⟩   -- one board's .DIR.bottom and its cached count
+  dirf : FS := FS.absent                     -- one board's .DIR (request layer)
 
 def fnv (bs : List Nat) : UInt64 :=
   bs.foldl (fun h b => (h ^^^ b.toUInt64) * 1099511628211) 14695981039346656037
@@ -157,18 +160,55 @@ def stepC05 (st : St) (ws : List String) : St × String :=
         ({ st with brd := fs }, s!"{showOut out} {showState fs}")
     | _, _ => (st, "bad-op")
   | ["brd-dump"] => (st, if st.brd.present then toHex st.brd.bytes else "absent")
-  -- callers layer: .DIR.bottom behind the board cache
-  | ["reset-bottom", h] =>
+  -- request layer: name / id → record, confirmed, then modified or delete-marked
+  | ["reset-dir", h] =>
     match (if h = "absent" then some FS.absent else (parseHex h).map (fun b => ⟨true, b⟩)) with
-    | some fs =>
-      let b := reloadBottom fs
-      ({ st with bottom := b }, s!"nbottom={b.nBottom}")
+    | some fs => ({ st with dirf := fs }, "ok")
     | none => (st, "bad-op")
-  | ["coldread", how] =>
-    if how = "total" ∨ how = "general" then
-      let b := coldRead st.bottom
-      ({ st with bottom := b }, s!"nbottom={b.nBottom} {showState b.file}")
-    else (st, "bad-op")
+  | ["stale-file", n] =>
+    match parseHex n with
+    | some nm => if nm.length = Gen.RecFile.lenFilename then (st, "ok") else (st, "bad-op")
+    | none => (st, "bad-op")
+  | ["recommend", n, ct, mt] =>
+    match parseHex n, parseIntIn ct 1 3, parseIntIn mt (-2147483648) 2147483647 with
+    | some nm, some c, some m =>
+      if nm.length ≠ Gen.RecFile.lenFilename then (st, "bad-op")
+      else
+        let (fs, out) := recommendReq st.dirf nm c.toNat m
+        ({ st with dirf := fs }, s!"{showOut out} {showState fs}")
+    | _, _, _ => (st, "bad-op")
+  | ["delete-article", a] =>
+    match parseHex a with
+    | some aid =>
+      let (fs, out) := deleteReq st.dirf aid
+      ({ st with dirf := fs }, s!"{showOut out} {showState fs}")
+    | none => (st, "bad-op")
+  | [op, n] =>
+    if op = "editpost" ∨ op = "crosspost" then
+      match parseHex n with
+      | some nm =>
+        if nm.length ≠ Gen.RecFile.lenFilename then (st, "bad-op")
+        else (st, match getRecordReq st.dirf nm with | .hit _ _ => "hit" | .miss => "miss" | .fault => "PANIC")
+      | none => (st, "bad-op")
+    else if op = "reset-bottom" then
+      match (if n = "absent" then some FS.absent else (parseHex n).map (fun b => ⟨true, b⟩)) with
+      | some fs =>
+        let b := reloadBottom fs
+        ({ st with bottom := b }, s!"nbottom={b.nBottom}")
+      | none => (st, "bad-op")
+    else if op = "coldread" then
+      if n = "total" ∨ n = "general" then
+        let b := coldRead st.bottom
+        ({ st with bottom := b }, s!"nbottom={b.nBottom} {showState b.file}")
+      else (st, "bad-op")
+    else
+      match parseOp st [op, n] with
+      | none => (st, "bad-op")
+      | some o =>
+        let (fs, out) := step st.fs o
+        ({ st with fs }, if isMutating o then s!"{showOut out} {showState fs}" else showOut out)
+  | ["dir-dump"] => (st, if st.dirf.present then toHex st.dirf.bytes else "absent")
+  -- callers layer: .DIR.bottom behind the board cache
   | ["loadbottom"] => (st, showOut (loadBottom st.bottom))
   | ["bottom-dump"] => (st, if st.bottom.file.present then toHex st.bottom.file.bytes else "absent")
   | _ =>
